@@ -25,11 +25,12 @@ type C15Op struct {
 	A  int    `json:"a,omitempty"` // account
 	P  int    `json:"p,omitempty"` // pool
 
-	Dep  []int `json:"dep,omitempty"`  // fund: (account, amount code) pairs
-	Keys []int `json:"keys,omitempty"` // replenish: distinct account / pool indices
-	Rel  int   `json:"rel,omitempty"`  // replenish: target = balance of the first key + Rel (if Abs == 0)
-	Abs  int   `json:"abs,omitempty"`  // replenish: target = amount code Abs-1 (if > 0)
-	Dup  bool  `json:"dup,omitempty"`  // replenish: list the first key a second time at the end of the request
+	Dep  []int  `json:"dep,omitempty"`  // fund: (account, amount code) pairs
+	Keys []int  `json:"keys,omitempty"` // replenish: distinct account / pool indices
+	Rel  int    `json:"rel,omitempty"`  // replenish: target = balance of the first key + Rel (if Abs == 0)
+	Abs  int    `json:"abs,omitempty"`  // replenish: target = amount code Abs-1 (if > 0)
+	Nest string `json:"nest,omitempty"` // replenish: pay | fund-other - an RPC forced between the host's quote and the renter's signature
+	Dup  bool   `json:"dup,omitempty"`  // replenish: list the first key a second time at the end of the request
 
 	Bad    string `json:"bad,omitempty"`    // attach/detach: wrong-key other-host expired; service: token-otherkey token-expired token-otherhost
 	By     string `json:"by,omitempty"`     // detach: pool | account
@@ -80,6 +81,11 @@ func genAmount15(t *rapid.T, label string) int {
 
 type c15 struct {
 	*session
+	// nest, if set, names an RPC the next replenish runs between the host's
+	// quote and the renter's signature: "pay" (a verify paid from a listed
+	// account / an account the listed pool is attached to) or "fund-other" (the
+	// first listed key is funded / replenished through the other contract)
+	nest     string
 	pooled   bool // a debit drained an account and continued into a pool
 	short1   bool // a request exactly one hasting short
 	credits  int
@@ -117,9 +123,14 @@ func (x *c15) after(what string, before *rhpx.Snapshot) error {
 // one credit batch, carried by one committed revision that moves exactly the
 // credited total from the renter payout to the host payout, doubly signed.
 func (x *c15) creditOracle(what string, m *mcontract, logFrom int, wantOp string, want []proto4.AccountDeposit) error {
-	calls := successfulCommits(x.H.Log.Since(logFrom))
+	var calls []rhpx.Call
+	for _, c := range successfulCommits(x.H.Log.Since(logFrom)) {
+		if c.ContractID == m.ID {
+			calls = append(calls, c)
+		}
+	}
 	if len(calls) != 1 {
-		return fmt.Errorf("%s: %d credit batches / revisions committed, exactly one expected", what, len(calls))
+		return fmt.Errorf("%s: %d credit batches / revisions committed on the paying contract, exactly one expected", what, len(calls))
 	}
 	c := calls[0]
 	if c.Op != wantOp || c.ContractID != m.ID {
@@ -214,6 +225,7 @@ func (x *c15) replenish(m *mcontract, pools bool, kidx []int, target types.Curre
 	var sum types.Currency
 	running := map[int]types.Currency{}
 	dup, sumOverflow := false, false
+	var nest string
 	for _, i := range kidx {
 		b, seen := running[i]
 		if !seen {
@@ -238,13 +250,62 @@ func (x *c15) replenish(m *mcontract, pools bool, kidx []int, target types.Curre
 	}
 	before := x.snapshot()
 	logFrom := x.H.Log.Len()
-	r := x.R.Replenish(m.view(), pools, keys, target, rhpx.Script{}, nil)
-	if r.Infra != nil {
+	_, _, rerr := proto4.ReviseForReplenish(m.Rev, sum)
+	valid := len(keys) > 0 && !target.IsZero() && rerr == nil && !sumOverflow
+	// optionally something happens to a listed balance between the quote and
+	// the signature; the host must still credit exactly what it quoted
+	nest, x.nest = x.nest, ""
+	var tamper *rhpx.Tamper
+	var nestedPay, nestedFund rhpx.Result
+	var other *mcontract
+	payAcct, nestedRan := -1, false
+	payPrice := x.Prices.RPCVerifySectorCost().RenterCost()
+	nestedDeposit := types.NewCurrency64(1000)
+	if nest != "" && valid && !dup && !sum.IsZero() {
+		for _, c := range x.C {
+			if c != m {
+				other = c
+			}
+		}
+		if nest == "pay" {
+			payAcct = kidx[0]
+			if pools {
+				payAcct = -1
+				for a := range x.Accts {
+					for _, p := range x.Att[x.Accts[a]] {
+						if p == all[kidx[0]] {
+							payAcct = a
+						}
+					}
+				}
+			}
+		}
+		switch {
+		case nest == "pay" && payAcct >= 0:
+			token := x.R.Token(x.AcctKeys[payAcct])
+			root, _ := rhpx.PoolSector(1)
+			tamper = &rhpx.Tamper{AfterFirstResponse: func() {
+				nestedRan = true
+				nestedPay = x.R.Verify(x.Prices, token, root, 3, rhpx.Script{}).Result
+			}}
+		case nest == "fund-other" && other != nil:
+			key := all[kidx[0]]
+			start := bal[kidx[0]]
+			tamper = &rhpx.Tamper{AfterFirstResponse: func() {
+				nestedRan = true
+				if pools {
+					nestedFund = x.R.Replenish(other.view(), true, []proto4.Account{key}, start.Add(nestedDeposit), rhpx.Script{}, nil).Result
+				} else {
+					nestedFund = x.R.Fund(other.view(), []proto4.AccountDeposit{{Account: key, Amount: nestedDeposit}}, rhpx.Script{}, nil).Result
+				}
+			}}
+		}
+	}
+	r := x.R.Replenish(m.view(), pools, keys, target, rhpx.Script{}, tamper)
+	if r.Infra != nil || nestedPay.Infra != nil || nestedFund.Infra != nil || !x.H.Client.WaitIdle(rhpx.Watchdog) {
 		x.cs.Inconclusive("watchdog")
 		return errInconclusive
 	}
-	_, _, rerr := proto4.ReviseForReplenish(m.Rev, sum)
-	valid := len(keys) > 0 && !target.IsZero() && rerr == nil && !sumOverflow
 	if sumOverflow {
 		x.cs.Class("replenish-total-overflows")
 	}
@@ -285,7 +346,36 @@ func (x *c15) replenish(m *mcontract, pools bool, kidx []int, target types.Curre
 		if !b.Equals(want) {
 			return fmt.Errorf("harness: replenish model inconsistent")
 		}
-		bal[i] = b
+	}
+	if nestedRan {
+		x.cs.Class("replenish-with-" + nest + "-between-quote-and-signature")
+		what += " [" + nest + " between quote and signature]"
+		switch nest {
+		case "pay":
+			enough := x.drawable(payAcct).Cmp(payPrice) >= 0
+			if nestedPay.Done != enough {
+				return fmt.Errorf("%s: nested verify paid by account %d: served=%v, funds sufficient=%v", what, payAcct, nestedPay.Done, enough)
+			}
+			if nestedPay.Done {
+				x.debitModel(payAcct, payPrice)
+			}
+		case "fund-other":
+			if !nestedFund.Done {
+				return fmt.Errorf("%s: the funding through the other contract was refused: %v", what, nestedFund)
+			}
+			op := "CreditAccountsWithContract"
+			if pools {
+				op = "CreditPoolsWithContract"
+			}
+			if err := x.creditOracle(what+" [nested]", other, logFrom, op, []proto4.AccountDeposit{{Account: all[kidx[0]], Amount: nestedDeposit}}); err != nil {
+				return err
+			}
+			bal[kidx[0]] = bal[kidx[0]].Add(nestedDeposit)
+		}
+	}
+	// the quoted deposits on top of whatever happened in between
+	for j, i := range kidx {
+		bal[i] = bal[i].Add(deps[j].Amount)
 	}
 	for _, d := range deps {
 		if d.Amount.IsZero() {
@@ -900,6 +990,7 @@ func (x *c15) step(op C15Op) error {
 				x.cs.Class("replenish-target-at-balance")
 			}
 		}
+		x.nest = op.Nest
 		return x.replenish(m, pools, kidx, target)
 	case "attach", "detach":
 		return x.attach(op)
@@ -1016,6 +1107,9 @@ func genC15(t *rapid.T) C15Case {
 				op.Keys = append(op.Keys, rapid.IntRange(0, 4).Draw(t, "key"))
 			}
 			op.Dup = rapid.IntRange(0, 5).Draw(t, "dup") == 0
+			if !op.Dup && rapid.IntRange(0, 2).Draw(t, "nest?") == 0 {
+				op.Nest = rapid.SampledFrom([]string{"pay", "fund-other"}).Draw(t, "nest")
+			}
 			if rapid.Bool().Draw(t, "abs") {
 				op.Abs = 1 + genAmount15(t, "target")
 			} else {
@@ -1069,7 +1163,7 @@ func genC15(t *rapid.T) C15Case {
 
 var c15Prop = kit.Prop[C15Case]{
 	ID:   "C15",
-	Rule: "sequences (2..14, thorough 2..24) over 3 accounts, 5 pools and 2 contracts against the real rhp4.Server: fund, replenish accounts/pools (targets below, at and above the current balance, mixed keys; amounts and targets up to the edges of the 128-bit range, the renter signing the wrapped total when a sum overflows), attach/detach (valid incl. batches and idempotent repeats; signed by the wrong key; bound to another host key; expired; never-funded pool), read/write/verify with the drawable funds (own balance + attached pools, split by drawn weights) topped up to cost-1, cost or cost+1, ranges over the whole domain the request validation accepts (offset inside a leaf with aligned end, range ending at the sector end, last leaf, whole sector, leaf index 65535), unknown sectors, invalid account tokens, a renter that stops / stalls / truncates the request or the data stream or does not read the answer, balance queries. Oracle from the recorded Contractor/Sectors calls and a balance model: every credit batch is carried by exactly one doubly-signed revision moving the same total from renter to host; every debit carries core's price of the request and precedes the single sector operation; insufficient funds / invalid token / unknown sector => no data, no sector operation, no balance change; replenish leaves max(before, target); rejected attach/detach never reach the contractor; balances and the ordered attachment table (read by value) equal the model (own balance first, then pools in attachment order) after every step. Non-trivial = a debit that drains the account's own balance and continues into a pool, or a request exactly one hasting short; distinct by hash of the case.",
+	Rule: "sequences (2..14, thorough 2..24) over 3 accounts, 5 pools and 2 contracts against the real rhp4.Server: fund, replenish accounts/pools (targets below, at and above the current balance, mixed keys; amounts and targets up to the edges of the 128-bit range, the renter signing the wrapped total when a sum overflows), a verify paid from a listed account or a funding of the listed key through the other contract forced between a replenish quote and the renter's signature (the host must credit exactly the quoted deposits), attach/detach (valid incl. batches and idempotent repeats; signed by the wrong key; bound to another host key; expired; never-funded pool), read/write/verify with the drawable funds (own balance + attached pools, split by drawn weights) topped up to cost-1, cost or cost+1, ranges over the whole domain the request validation accepts (offset inside a leaf with aligned end, range ending at the sector end, last leaf, whole sector, leaf index 65535), unknown sectors, invalid account tokens, a renter that stops / stalls / truncates the request or the data stream or does not read the answer, balance queries. Oracle from the recorded Contractor/Sectors calls and a balance model: every credit batch is carried by exactly one doubly-signed revision moving the same total from renter to host; every debit carries core's price of the request and precedes the single sector operation; insufficient funds / invalid token / unknown sector => no data, no sector operation, no balance change; replenish leaves max(before, target); rejected attach/detach never reach the contractor; balances and the ordered attachment table (read by value) equal the model (own balance first, then pools in attachment order) after every step. Non-trivial = a debit that drains the account's own balance and continues into a pool, or a request exactly one hasting short; distinct by hash of the case.",
 	Assumptions: []string{
 		"host = rhp4.Server over the repository's reference EphemeralContractor / EphemeralSectorStore, in-memory transport",
 		"a replenish request may list a key twice (the request validation does not exclude it); the expectation is the statement's: the balance ends at max(before, target); a host that refuses such a request outright is accepted too",
